@@ -17,6 +17,8 @@ extra = {
  'i': '\nADDITIONAL REQUIREMENT: put the defect on an ERROR / BOUNDARY path: a call that must be refused (panic) is now accepted, or panics only after it has already changed part of the state, or a valid call exactly at a boundary (first/last index, slot 0 or size, exactly full, exactly empty, capacity 1, a range of length 0 or 1, the deepest allowed nesting) is now refused or treated as its neighbour. Calls well inside the valid range stay correct.',
  'j': '\nADDITIONAL REQUIREMENT: the defect must only show when TWO DIFFERENT collection kinds or API layers meet: a collection built from / compared with / merged with / formatted inside a collection of ANOTHER kind (a List from a Set or a Queue, a Catalog from a Map, a Stack inside a List, an Array as a Set element, an Association as a value), or the same operation reached through the module-level wrapper functions in v4/Module.go instead of the class in v4/collection. The same operation within one kind through the class API stays correct.',
  'k': '\nADDITIONAL REQUIREMENT: assume the maintainers already run a model-based random test for this property: up to 40 random operations on a small collection of small ints or short strings, every observer compared with a reference model after every step, plus a few thousand random inputs. Your change must SURVIVE such a test and still break the property for some realistic use: think of what such a test does not vary (rare argument combinations, sizes beyond a few dozen, long idle sequences, particular orders of construction, specific Unicode/number formats, interplay of three or more calls).',
+ 'l': '\nADDITIONAL REQUIREMENT: write the kind of slip a maintainer makes during an ordinary REFACTORING: extracting a helper and passing the wrong variable, inverting a condition while simplifying it, merging two similar branches that differed in one detail, hoisting a statement out of a loop, changing a loop bound or a slice expression, replacing a hand-written loop by a library call with slightly different semantics. It must read like a clean-up and must be DIFFERENT from everything in the already-used list (another function or another mechanism).',
+ 'o': '\nADDITIONAL REQUIREMENT: look at the git history of the worktree (git log --oneline, git show <commit>): several commits whose message starts with "fix:" repaired real defects. Write a REGRESSION: a change that brings back a VARIANT of one of those defects for this property -- not a plain revert of the fix (the exact original failing input must still work), but the same kind of mistake on a neighbouring path, argument form, boundary or kind that the fix did not have to touch, or a later "simplification" of the fixed code that is right for the original input and wrong for a related one.',
  'c': '\nADDITIONAL REQUIREMENT: the change must be a one-token or one-line edit (an operator, a constant, an index expression, an omitted statement) somewhere OTHER than the function a reviewer would look at first; it must only matter for inputs that are large, deeply nested, or at a boundary.',
 }[variant]
 for pid in sys.argv[2:]:
